@@ -8,6 +8,7 @@ CONSTANTS
   AllowCrash = FALSE
   Coarse = FALSE
   StatByName = TRUE
+  StampFirst = FALSE
   FreshAtParse = FALSE
 INVARIANT TypeOK
 INVARIANT NoStale
